@@ -133,6 +133,14 @@ func transforms(s *scn.Scenario) []*scn.Scenario {
 		})
 		add(func(t *scn.Scenario) bool {
 			u := &t.UEs[i]
+			if u.RadioCapLen == 0 {
+				return false
+			}
+			u.RadioCapLen = 0
+			return true
+		})
+		add(func(t *scn.Scenario) bool {
+			u := &t.UEs[i]
 			if u.SessAMBR == "" {
 				return false
 			}
